@@ -125,6 +125,9 @@ type world struct {
 	inflightTasks int
 	// a run that stops for good on a leaked mutex is a violation of this engine's property (see wedge_test.go)
 	wedgeIsViolation bool
+	// optional statement-level scheduler for instrumented code of the nodes (see ysched.drain)
+	ys    *ysched
+	ysRng *prng
 }
 
 func newWorld(seed uint64, prop, engine string) *world {
@@ -170,6 +173,9 @@ func (w *world) violate(prop, clause, format string, a ...any) {
 // sleep (virtually) until the next delivery, a socket write, or maxWait.
 func (w *world) step(maxWait time.Duration) {
 	synctest.Wait()
+	if w.ys != nil && w.ys.on {
+		w.res.Probes["ysched_resumes"] += w.ys.drain(w.ysRng)
+	}
 	w.net.route()
 	n := w.net.deliverDue()
 	for _, c := range w.checks {
